@@ -314,6 +314,10 @@ def run_shard(spec):
                     except PostBroken as e:
                         probs, closure = [("closure", f"{e.args[0]}",
                                            "C15/filter/closure")], set()
+                    except Exception as e:  # an export of a valid selection must not fail
+                        probs, closure = [("export-raised", f"{fmt} export of {sorted(sel)[:8]} "
+                                           f"raised {type(e).__name__}: {str(e)[:200]}",
+                                           f"C15/{fmt}/raised/{type(e).__name__}")], set()
                     _account(acc, cfg, tracks, sel, closure, comp_of, fmt, variant, probs,
                              list(ops_done))
             shutil.rmtree(wd, ignore_errors=True)
